@@ -32,7 +32,7 @@ def generate(seed, tier):
         n_rand = {'quick': 250, 'search': 1500}[tier]
     for i in range(n_rand):
         rng = derived_rng(seed, 'C09', i)
-        side = gen.gen_side(rng, 'D', max_dims=4, max_size=5)
+        side = gen.gen_side(rng, 'D', max_dims=4, max_size=5, long_prob=0.12)
         if i % 9 == 8:                         # as many or more dimensions than points
             k = rng.randint(2, 4)
             sizes = rng.choice([[1] * k, [1] * (k - 1) + [2], [2] + [1] * (k - 1)])
